@@ -252,15 +252,39 @@ def r18_d(ctx):
                         'list is a plain list, which nodes do not accept as their arguments', line=cls.node.lineno))
         return rr
     fd = fds[-1]
-    wraps = False
-    plain = False
-    for n in ast.walk(fd.node):
-        if isinstance(n, ast.If) and 'isinstance' in norm(n.test) and 'list' in norm(n.test):
-            for s in n.body:
-                if isinstance(s, ast.Return) and isinstance(s.value, ast.Call) and norm(s.value.func) in ('TexArgs', 'type(self)', 'self.__class__'):
-                    wraps = True
-        if isinstance(n, ast.Return) and isinstance(n.value, ast.Name):
-            plain = True
+    # decided by truth table over the conditions of the method: when the list look-up returned a list (a slice) the
+    # result is an argument list built from it, otherwise the element itself
+    from . import boolpath
+    import itertools
+    body = strip_doc(fd.node.body)
+    wraps = plain = False
+    try:
+        atoms, env = boolpath.collect_atoms(body)
+        for n in ast.walk(fd.node):
+            if isinstance(n, ast.IfExp):
+                boolpath._atoms(n.test, env, atoms)
+        listy = [a for a in atoms if a.startswith('isinstance(') and a.endswith(', list)')]
+        if listy and len(atoms) <= 6:
+            wraps = plain = True
+            for bits in itertools.product((False, True), repeat=len(atoms)):
+                val = dict(zip(atoms, bits))
+                rets = []
+                boolpath.run_block(body, env, val, lambda s_: rets.append(s_) if isinstance(s_, ast.Return) else None)
+                if not rets or rets[0].value is None:
+                    wraps = plain = False
+                    break
+                e = rets[0].value
+                while isinstance(e, ast.IfExp):
+                    e = e.body if boolpath._ev(e.test, env, val) else e.orelse
+                is_wrap = isinstance(e, ast.Call) and norm(e.func) in ('TexArgs', 'type(self)', 'self.__class__')
+                # a slice key always yields a list: `isinstance(key, slice)` true decides the case on its own
+                slicey = [a for a in atoms if a.startswith('isinstance(') and a.endswith(', slice)')]
+                if any(val[a] for a in slicey) or val[listy[0]]:
+                    wraps = wraps and is_wrap
+                else:
+                    plain = plain and not is_wrap
+    except boolpath.NotStructured:
+        wraps = plain = False
     sup = any(_is_super_call(n, {'__getitem__'}) for n in ast.walk(fd.node))
     # every result is list.__getitem__(key) on the caller's key, as it is or wrapped in an argument list
     kp = fd.params()[1] if len(fd.params()) > 1 else None
@@ -275,6 +299,8 @@ def r18_d(ctx):
             return len(e.args) == 1 and isinstance(e.args[0], ast.Name) and e.args[0].id == kp
         if isinstance(e, ast.Call) and norm(e.func) in ('TexArgs', 'type(self)', 'self.__class__') and len(e.args) == 1:
             return from_list(e.args[0])
+        if isinstance(e, ast.IfExp):
+            return from_list(e.body) and from_list(e.orelse)
         return False
     for n in ast.walk(fd.node):
         if isinstance(n, ast.Return) and (n.value is None or not from_list(n.value)):
